@@ -92,6 +92,11 @@ class Cell:
         self.name = name
 
 
+def scanon(v):
+    from .c15 import canon
+    return canon(v)
+
+
 def evaluate_coherence(fns, consts):
     ob = O._ob('c04_mir_evaluate_routes_the_binding', 'uigen::objcode::PropertyCode::{evaluate, evaluate_uncached, is_evaluated_constant} (+ closures, inlined)',
                'an expression binding whose constant evaluation succeeds or not (symbolic); gadget/object maps; OnceCell modelled as a cell on the path heap',
@@ -212,6 +217,19 @@ def evaluate_coherence(fns, consts):
             for pcs, heap, r in run_fn(f_eval, [prop(kind)], p0):
                 if not (isinstance(r, M.Adt) and r.path.endswith('None')):
                     bad.append(f'evaluate() of a {kind} is not None')
+            # a grouped value is constant only if ALL its members are (otherwise the dynamic member is left to nobody)
+            for pcs, heap, r in run_fn(f_isc, [prop(kind)], p0):
+                if not (isinstance(r, M.Call) and re.search(r'(::|>::)all$', r.callee.split('::<')[0])):
+                    bad.append(f'is_evaluated_constant() of a {kind} is not `all members are constant`: {scanon(r)[:80]}')
+                    continue
+                if 'values(' not in scanon(r.args[0]):
+                    bad.append(f'is_evaluated_constant() of a {kind} does not range over the members of the map')
+                cfn, env = closure_fn(r.args[1])
+                itc = M.Interp(cfn, consts, arg_values={'_1': env, '_2': M.Ref(M.Opaque('member'))})
+                rets = [q for q in itc.run() if q.end == 'return']
+                t = scanon(rets[0].ret) if len(rets) == 1 else '?'
+                if 'is_evaluated_constant(' not in t or 'member' not in t or t.startswith('op:Not'):
+                    bad.append(f'the member test of a {kind} is not is_evaluated_constant(member): {t[:80]}')
         ob['paths'] = n
     except M.MirError as e:
         O._finish(ob, t0, ['MIR: ' + str(e)], unknown=True)
@@ -315,6 +333,11 @@ def replay(workdir):
             in_h = re.search(r'->set' + prop[0].upper() + prop[1:] + r'\(', h) is not None
             if in_ui != const or in_h == const:
                 failed.append({'probe': 'partition', 'property': prop, 'in_ui': in_ui, 'in_header': in_h, 'why': 'a binding is consumed by both passes or by none'})
+    # a grouped value with a constant and a dynamic member: the dynamic member must be generated
+    r, files = gen(os.path.join(workdir, 'mixed-group'), wrap('QSpinBox { id: spin }\n  QLabel { id: lab; font.family: "Monospace"; font.pointSize: spin.value }'))
+    h = files.get('uisupport_doc.h', '')
+    if r.returncode != 0 or 'setPointSize(' not in h or 'spin->value()' not in h:
+        failed.append({'probe': 'mixed-group', 'rc': r.returncode, 'why': 'the dynamic member of a grouped value with a constant sibling is neither generated nor diagnosed'})
     # attached constant bindings of a grid layout: each one alone must reach the .ui
     for attr, xml in (('rowMinimumHeight', 'rowminimumheight'), ('columnMinimumWidth', 'columnminimumwidth'), ('rowStretch', 'rowstretch'), ('columnStretch', 'columnstretch')):
         text = f'import qmluic.QtWidgets\nQWidget {{\n QGridLayout {{\n  QLabel {{ id: lab; QLayout.{attr}: 7 }}\n }}\n}}\n'
